@@ -547,6 +547,10 @@ func runKeyClass(c *core.Ctx) {
 				if ok0 && ok1 && r0.Info()&types.IsInteger != 0 && r1.Kind() == types.Bool {
 					keyFn = fn
 				}
+				// … or (key, err): "no key" reported with a reason
+				if ok0 && r0.Info()&types.IsInteger != 0 && types.Identical(fn.Signature.Results().At(1).Type(), types.Universe.Lookup("error").Type()) && keyFn == nil {
+					keyFn = fn
+				}
 			}
 		}
 	}
@@ -604,7 +608,9 @@ func checkKeyFunc(c *core.Ctx, k *ssa.Function, keyIdx, okIdx int, props []strin
 				}
 			}
 		}
-		notStored := okIdx >= 0 && isConstBool(r.Results[okIdx], false)
+		notStored := okIdx >= 0 && (isConstBool(r.Results[okIdx], false) ||
+			// (the presence of a key reported as an error: a non-nil error is "no key")
+			(types.Identical(r.Results[okIdx].Type(), types.Universe.Lookup("error").Type()) && definitelyError(r.Results[okIdx])))
 		for _, cn := range classNames {
 			if !s.Contains(cls[cn]) {
 				continue
